@@ -144,11 +144,12 @@ namespace GeographicLib {
     if (n & 1 || n < 0)
       return 0;
     n /= 2;
-    real e2n = 1;            // Perhaps this should just be e2n = pow(-_e2, n);
-    for (int j = n; j--;)
-      e2n *= -_e2;
-    return                      // H+M, Eq 2-92
-      -3 * e2n * ((1 - n) + 5 * n * _jJ2 / _e2) / ((2 * n + 1) * (2 * n + 3));
+    if (n == 0) return -1;
+    real e2n1 = 1;              // (-e2)^(n-1)
+    for (int j = n - 1; j--;)
+      e2n1 *= -_e2;
+    return                      // H+M, Eq 2-92, multiplied out to avoid J2/e2
+      -3 * e2n1 * (-_e2 * (1 - n) - 5 * n * _jJ2) / ((2 * n + 1) * (2 * n + 3));
   }
 
   Math::real NormalGravity::SurfaceGravity(real lat) const {
